@@ -68,7 +68,8 @@ CACHE_DIR = os.path.join(VERIF, ".cache", "units")
 
 
 def cache_path(job):
-    k = hashlib.sha256((tree_key() + json.dumps(job[:4], sort_keys=True, default=str)).encode()).hexdigest()
+    mode = "second-opinion" if os.environ.get("PYVC_SECOND_OPINION") == "1" else ""
+    k = hashlib.sha256((tree_key() + mode + json.dumps(job[:4], sort_keys=True, default=str)).encode()).hexdigest()
     return os.path.join(CACHE_DIR, k[:2], k + ".json")
 
 
@@ -159,12 +160,42 @@ def native(jobs, stop_at_first=False, repo=None, timeout=600):
     return json.loads(p.stdout)["results"]
 
 
+def native_parallel(jobs, procs):
+    """the same native run split over worker processes (results in job order)"""
+    import concurrent.futures as cf
+
+    n = max(1, min(procs, len(jobs) // 500))
+    chunks = [jobs[i::n] for i in range(n)]
+    with cf.ThreadPoolExecutor(n) as ex:
+        parts = list(ex.map(lambda c: native(c, stop_at_first=True, timeout=3000), chunks))
+    out = [None] * len(jobs)
+    for i, part in enumerate(parts):
+        for k, r in enumerate(part):
+            out[i + k * n] = r
+    return [r if r is not None else {"ok": True, "detail": "not run (an earlier input of the chunk failed)", "error": None} for r in out]
+
+
 def load_known():
     try:
         with open(os.path.join(VERIF, "known_findings.json")) as f:
             return json.load(f).get("findings", [])
     except OSError:
         return []
+
+
+def with_known(prop_id, jobs):
+    """native jobs are told which listed findings to step around (the oracle then checks the
+    neighbouring statement instead, e.g. the same schema fragment with the severity upper-cased),
+    so that a listed finding is never re-reported as a new violation and never masks another one"""
+    flags = [k["native_flag"] for k in load_known() if k.get("property") == prop_id and k.get("native_flag")]
+    if not flags:
+        return jobs
+    out = []
+    for j in jobs:
+        j = dict(j)
+        j["input"] = dict(j["input"], known=flags)
+        out.append(j)
+    return out
 
 
 class Property(object):
@@ -277,6 +308,7 @@ def check(prop, tier="quick", seed=0, procs=None, verbose=False):
             if not cand:
                 continue
             try:
+                cand = with_known(prop.id, cand)
                 res = native(cand, stop_at_first=True)
             except Exception as e:  # noqa
                 errors.append(repr(e))
@@ -313,12 +345,17 @@ def check(prop, tier="quick", seed=0, procs=None, verbose=False):
         violations.append({"obligation": o["name"], "replay": path, "reproduced": bool(failing)})
 
     bounded_info = None
-    if undecided and not violations:
+    # the bounded native run: the stand-in for undecided obligations on every tier, and on the
+    # thorough tier additionally a supplementary exploration of the real code (never counted as
+    # proof; a failing input is a violation with a replayable witness)
+    if (undecided or tier == "thorough") and not violations:
         bj, bdesc = prop.bounded(tier, seed)
-        bounded_info = {"bound": bdesc, "inputs": len(bj), "failed": 0}
+        bj = with_known(prop.id, bj)
+        bounded_info = {"bound": bdesc, "inputs": len(bj), "failed": 0,
+                        "role": "stand-in for undecided obligations" if undecided else "supplementary exploration (thorough tier)"}
         if bj:
             try:
-                res = native(bj, stop_at_first=True, timeout=1800)
+                res = native_parallel(bj, procs) if len(bj) > 2000 else native(bj, stop_at_first=True, timeout=1800)
                 for job, rr in zip(bj, res):
                     if not rr["ok"]:
                         bounded_info["failed"] = 1
@@ -339,7 +376,7 @@ def check(prop, tier="quick", seed=0, procs=None, verbose=False):
                         lines.append("VIOLATION property=%s replay=%s obligation=bounded-stand-in" % (prop.id, path))
                         violations.append({"obligation": "bounded-stand-in", "replay": path, "reproduced": True})
                         break
-                bounded_info["inputs_run"] = len(res)
+                bounded_info["inputs_run"] = sum(1 for r in res if not str(r.get("detail") or "").startswith("not run"))
             except Exception as e:  # noqa
                 bounded_info["error"] = repr(e)
 
@@ -387,6 +424,7 @@ def check(prop, tier="quick", seed=0, procs=None, verbose=False):
             "solver_seconds": round(sum(r.get("solver_seconds", 0) for r in results), 2),
             "unit_seconds": round(sum(r.get("seconds", 0) for r in results), 2),
             "fd_grid_points": sum(r.get("fd_points", 0) for r in results),
+            "second_solver_cvc5_on_z3_unsat_verdicts": {k: sum((r.get("second_opinion") or {}).get(k, 0) for r in results) for k in ("unsat", "sat", "none")},
             "refuted": len(refuted),
             "obligations_of_shared_units_belonging_to_other_properties": excluded,
             "known_findings": [k.get("what") for k, _ in known_hits],
